@@ -6,6 +6,7 @@ from ..rateprobe import run_case, reference, common_buckets, exc_detail
 from ..util import KIND, EPS
 
 PROPERTY = "C05"
+TECHNIQUE = "runtime monitoring: contract monitor + shadow executions (win/draw/loss, exchange of places, identical teams)"
 LEVEL = "exploration"
 RULE = ("Contract + shadow executions on the real rate(): (a) sole first never loses mu / sole last never gains; "
         "(b) team members move in one direction with dmu_j/(sigma_j^2+tau^2) constant; (c) two teams rated under win, "
